@@ -371,10 +371,7 @@ def prim (cfg : Cfg) (le : ID → ID → Bool) (c : Callee) (vs : List V) (m : M
       if name = "LogOut" then
         (match vs with
          | [] =>
-           (match hlogout cfg m.st h with
-            | (s1, .ok, e1) => k [.err false] ((m.withSt s1).emit e1)
-            | (s1, .err, e1) => k [.err true] ((m.withSt s1).emit e1)
-            | (s1, _, _) => (m.withSt s1).stuck "Session.LogOut")
+           let r := hlogout cfg m.st h; k [.err (r.2.1 != HRes.ok)] ((m.withSt r.1).emit r.2.2)
          | _ => m.stuck "Session.LogOut")
       else if name = "RegenerateID" then
         (match vs with
@@ -548,12 +545,12 @@ def exec (cfg : Cfg) (f : Fn) (s : State) (args : List V) : Out := execLe cfg (f
 def ofErr (r : State × Bool × List Ev) : Out := (r.1, .ret [.err (!r.2.1)], r.2.2)
 
 /-- the handler methods -/
-def ofHRes (dflt : Val) (r : State × HRes × List Ev) : Out :=
+def ofHRes (r : State × HRes × List Ev) : Out :=
   (r.1,
    (match r.2.1 with
     | .ok => .ret [.err false]
     | .err => .ret [.err true]
-    | .val v => .ret [.val (if v = .null then dflt else v)]
+    | .val v => .ret [.val v]
     | .panic => .panic
     | _ => .stuck "result"),
    r.2.2)
